@@ -7,6 +7,7 @@ import (
 	"encoding/binary"
 	"encoding/json"
 	"fmt"
+	"github.com/foxboron/go-uefi/efi/util"
 	"io"
 	"sort"
 	"sync"
@@ -39,6 +40,12 @@ type scCfg struct {
 	// Junk (image objects): behind the signatures the certificate table holds one more WIN_CERTIFICATE whose PKCS#7 blob
 	// is not an Authenticode signature (a plain SignedData over data)
 	Junk bool `json:"junk_entry,omitempty"`
+	// FaultAt > 0 (sequential runs on an image): the FaultAt-th read of the medium after the schedule starts fails once.
+	// The operation it hits is not judged; every other call, before and after, answers as on a healthy medium, and the
+	// object is what it was.
+	FaultAt int `json:"fault_at,omitempty"`
+	// StepS (sequential runs on a signed update): simulated seconds that pass between two calls
+	StepS int `json:"step_s,omitempty"`
 }
 
 type scOp struct {
@@ -88,7 +95,7 @@ func (e *schedEngine) Plan(seed uint64, tier string) int {
 
 var scImageOps = []string{"Hash", "HashSHA1", "HashSHA512", "Bytes", "Open", "Signatures", "Verify", "VerifyOther"}
 var scDBOps = []string{"Bytes", "Marshal", "BytesExists", "BytesExistsMiss", "BytesExistsPEM", "SigDataExists", "Exists"}
-var scUpdateOps = []string{"Marshal", "Bytes", "DescMarshal", "DescVerify", "CallerEditsPayload"}
+var scUpdateOps = []string{"Marshal", "Bytes", "DescMarshal", "DescVerify", "CallerEditsPayload", "DescZeroTimeMarshal"}
 var scPkcs7Ops = []string{"Verify", "VerifyOther", "HasCertificate"}
 var scAuthcodeOps = []string{"Verify", "VerifyOther"}
 var scListOps = []string{"Bytes", "Exists", "ExistsMiss", "ExistsInList", "CmpHeader"}
@@ -129,6 +136,9 @@ func (e *schedEngine) Gen(seed uint64, tier string, run int) *Trace {
 			}
 		}
 		c.Junk = c.Image.Gen != nil && r.Fork("junk").Chance(1, 6)
+		if fr := r.Fork("fault"); c.Mode == "seq" && e.variant != "race" && fr.Chance(1, 4) {
+			c.FaultAt = 1 + fr.Intn(40)
+		}
 		kinds = scImageOps
 	case "db":
 		c.DB = r.Intn(7) // 3, 4: with a list that the caller assembled by hand around a PEM encoded certificate; 5, 6: long lists
@@ -151,6 +161,9 @@ func (e *schedEngine) Gen(seed uint64, tier string, run int) *Trace {
 	case "update":
 		c.Signers = []int{Pick(r, []int{0, 1, 0, 1, 8, 12})}
 		c.DB = r.Intn(5) // payload variant
+		if c.Mode == "seq" && e.variant != "race" && r.Fork("clock").Chance(1, 2) {
+			c.StepS = Pick(r, []int{1, 1, 2, 61, 3601})
+		}
 		kinds = scUpdateOps
 	}
 	c.Clients = 1
@@ -632,6 +645,14 @@ func (e *schedEngine) build(c scCfg, x *X, plane *Plane) (mk func() *scObject) {
 				case "DescVerify":
 					ok, err := desc.Verify(pk.Cert)
 					return scResult([]byte(fmt.Sprint(ok)), err)
+				case "DescZeroTimeMarshal":
+					// a descriptor whose timestamp is all zero (hand-built, or decoded from a variable that has none): encoding it
+					// writes the zeros, now and a second later
+					dz := *desc
+					dz.Time = util.EFITime{}
+					var b bytes.Buffer
+					dz.Marshal(&b)
+					return scOwnBuffer(&b)
 				case "CallerEditsPayload":
 					// not an operation on the update: the caller prepares its next update in the object it once passed as
 					// payload. The update that was handed out is a value of its own and must not notice.
@@ -830,29 +851,68 @@ func (e *schedEngine) Exec(tr *Trace, x *X) {
 	}
 	switch c.Mode {
 	case "seq":
-		reps := map[string]int{}
-		for i, op := range ops {
-			x.Steps++
-			results[i] = guardResult(func() []byte { return obj.do(op) })
-			x.Logf("op %d %s -> %s", i, op.Op, shortHex(results[i]))
-			if !judge(i) {
-				return
+		seqBody := func() {
+			reps := map[string]int{}
+			faulted := false
+			if c.FaultAt > 0 && plane != nil {
+				plane.Arm([]Fault{{Pos: c.FaultAt - 1, Kind: "err"}})
 			}
-			if d := deepDump(obj.dumpRoot); d != snap0 {
-				x.Fail("sched.object_unmodified", i, c.Object+"."+op.Op, "the object changed after its first use: %s", dumpDiff(snap0, d))
-				x.Viol.Sig = map[string]string{"mode": c.Mode, "object": c.Object, "op": op.Op}
-				return
+			for i, op := range ops {
+				x.Steps++
+				fired0 := 0
+				if plane != nil {
+					fired0 = len(plane.Fired)
+				}
+				results[i] = guardResult(func() []byte { return obj.do(op) })
+				x.Logf("op %d %s -> %s", i, op.Op, shortHex(results[i]))
+				if c.StepS > 0 {
+					time.Sleep(time.Duration(c.StepS) * time.Second) // (inside the bubble: simulated time)
+				}
+				if plane != nil && len(plane.Fired) > fired0 {
+					// the medium failed once inside this call: whatever it answered, it is the calls around it that are judged.
+					// (An implementation may remember the failure somewhere inside the object — the tree's own error latch of
+					// Parse does — so from here on the results are what counts, not the object's internals.)
+					faulted = true
+					x.Probe("transient_read_fault_inside_a_call")
+					if bytes.HasPrefix(results[i], []byte("PANIC:")) {
+						x.Fail("sched.result_repeatable", i, c.Object+"."+op.Op, "the call panicked when the medium failed once: %s", shortHex(results[i]))
+						return
+					}
+				} else if !judge(i) {
+					return
+				}
+				if d := deepDump(obj.dumpRoot); d != snap0 && !faulted {
+					x.Fail("sched.object_unmodified", i, c.Object+"."+op.Op, "the object changed after its first use: %s", dumpDiff(snap0, d))
+					x.Viol.Sig = map[string]string{"mode": c.Mode, "object": c.Object, "op": op.Op}
+					return
+				}
+				if !kept(i) {
+					return
+				}
+				reps[op.Op]++
+				if reps[op.Op] >= 2 {
+					x.Nontriv = true
+				}
 			}
-			if !kept(i) {
-				return
+			if plane != nil {
+				plane.Disarm()
 			}
-			reps[op.Op]++
-			if reps[op.Op] >= 2 {
-				x.Nontriv = true
+			if !bystandersIntact() {
+				return
 			}
 		}
-		if !bystandersIntact() {
-			return
+		if c.StepS > 0 {
+			// the simulated clock moves between the calls
+			at, err := time.Parse(time.RFC3339, c.Instant)
+			if err != nil {
+				harnessf("sched instant: %v", err)
+			}
+			x.Probe("clock_moves_between_calls")
+			if pv := inBubble(x.T, at.UTC(), "", seqBody); pv != nil {
+				panic(pv)
+			}
+		} else {
+			seqBody()
 		}
 	case "inter":
 		s := NewSched(x, c.Clients, sw)
